@@ -55,6 +55,37 @@ fn omit_some_nulls(rng: &mut Rng, v: &Value) -> Value {
     }
 }
 
+/// fixed cases that run first: one input object (and one variable list) with a member of EVERY type
+/// expression over a scalar to list depth 2, a nested and a keyword-named member, a @oneOf input
+fn corpus() -> Vec<(ASchema, ADoc)> {
+    let shapes = ATy::all_shapes("String", 2);
+    let mut fields: Vec<(String, ATy)> = shapes.iter().enumerate().map(|(i, t)| (format!("f{}", i), t.clone())).collect();
+    fields.push(("type".into(), ATy::named("Int")));
+    fields.push(("camelCase".into(), ATy::List(Box::new(ATy::NonNull(Box::new(ATy::named("Int")))))));
+    fields.push(("inner".into(), ATy::named("Inner")));
+    let schema = ASchema {
+        types: vec![
+            AType::Input { name: "AllShapes".into(), one_of: false, fields },
+            AType::Input { name: "Inner".into(), one_of: false, fields: vec![("ids".into(), ATy::List(Box::new(ATy::NonNull(Box::new(ATy::named("ID")))))), ("again".into(), ATy::named("Inner"))] },
+            AType::Input { name: "Pick".into(), one_of: true, fields: vec![("by_id".into(), ATy::named("ID")), ("byName".into(), ATy::named("String")), ("in".into(), ATy::named("Inner"))] },
+            AType::Object { name: "Query".into(), implements: vec![], fields: vec![AField { name: "x".into(), ty: ATy::named("Int"), dep: None }], ext_fields: vec![] },
+        ],
+        query: Some("Query".into()),
+        mutation: None,
+        subscription: None,
+    };
+    let mut vars: Vec<AVar> = vec![
+        AVar { name: "a".into(), ty: ATy::named("AllShapes"), default: None },
+        AVar { name: "b".into(), ty: ATy::NonNull(Box::new(ATy::named("AllShapes"))), default: None },
+        AVar { name: "pick".into(), ty: ATy::named("Pick"), default: None },
+    ];
+    let doc1 = ADoc { ops: vec![AOp { kind: "query", name: "Shapes".into(), vars: vars.clone(), sels: vec![ASel::Field { alias: None, name: "x".into(), sub: vec![] }] }], frags: vec![] };
+    vars = shapes.iter().enumerate().map(|(i, t)| AVar { name: format!("v{}", i), ty: t.clone(), default: None }).collect();
+    vars.push(AVar { name: "withDefault".into(), ty: ATy::named("Int"), default: Some("7".into()) });
+    let doc2 = ADoc { ops: vec![AOp { kind: "query", name: "VarShapes".into(), vars, sels: vec![ASel::Field { alias: None, name: "x".into(), sub: vec![] }] }], frags: vec![] };
+    vec![(schema.clone(), doc1.clone()), (schema.clone(), doc1), (schema.clone(), doc2.clone()), (schema, doc2)]
+}
+
 pub fn run(a: &Args) -> i32 {
     let mut rep = Report::new(
         "C04",
@@ -65,11 +96,20 @@ pub fn run(a: &Args) -> i32 {
     let n_cases = if rep.thorough() { 300 } else { 40 };
     let per_op = if rep.thorough() { 40 } else { 14 };
     let ok = OpKnobs { max_depth: 1, fragments: false, ..OpKnobs::default() };
-    let mut u = build_universe(&mut rep, &mut rng, "c04", n_cases, &SchemaKnobs::default(), &ok, |rng, s| {
+    let mut calls = 0usize;
+    let n_corpus = corpus().len();
+    let mut u = build_universe_with(&mut rep, &mut rng, "c04", n_cases, &SchemaKnobs::default(), &ok, |rng, s| {
+        calls += 1;
+        if calls <= n_corpus {
+            // the fixed cases: skip_serializing_none on / off alternately, default options otherwise
+            let mut o = vcore::common::Opts::harness();
+            o.skip_none = calls % 2 == 1;
+            return o;
+        }
         let mut o = default_opts(rng, s);
         o.skip_none = rng.chance(50);
         o
-    });
+    }, corpus());
     let exe = match u.build.exe.clone() {
         Some(e) => e,
         None => {
